@@ -94,13 +94,19 @@ class AddressType(StringType, prim='address'):
     def __repr__(self):
         return f'{self.value[:6]}…{self.value[-3:]}'
 
-    def __lt__(self, other: 'AddressType') -> bool:  # type: ignore
-        if is_pkh(self.value) and is_kt(other.value):
-            return True
-        elif is_kt(self.value) and is_pkh(other.value):
-            return False
+    def _sort_key(self):
+        # NOTE: implicit accounts < originated contracts < rollups, then the address itself, then the entrypoint
+        address, _, entrypoint = self.value.partition('%')
+        if is_pkh(address):
+            rank = 0
+        elif is_kt(address):
+            rank = 1
         else:
-            return self.value < other.value
+            rank = 2
+        return rank, address, entrypoint or 'default'
+
+    def __lt__(self, other: 'AddressType') -> bool:  # type: ignore
+        return self._sort_key() < other._sort_key()
 
     @classmethod
     def dummy(cls, context: AbstractContext) -> 'AddressType':
